@@ -3,6 +3,7 @@ package props
 import (
 	"fmt"
 	"math"
+	"os"
 	"testing"
 
 	"github.com/DataDog/sketches-go/ddsketch"
@@ -46,6 +47,7 @@ func moderateDomain(t *rapid.T, c skCfg) valDom {
 		}
 	}
 	d.lo, d.hi = c0, c0+w-1
+	d.wideLo, d.wideHi = lo, hi
 	return d
 }
 
@@ -148,7 +150,7 @@ func TestC10(t *testing.T) {
 					}
 				}
 				if tot := e.s.Inner().GetCount(); math.Abs(tot-count) > 1e-9*count {
-					t.Fatalf("C10 %s after %s: bins hold %v, exact count %v", e.cfg, what, tot, count)
+					t.Fatalf("C10 %s after %s: bins hold %v (zero bucket %v, positive store %v, negative store %v), exact count %v", e.cfg, what, tot, e.s.GetZeroCount(), e.s.Pos().TotalCount(), e.s.Neg().TotalCount(), count)
 				}
 			}
 		}
@@ -252,7 +254,17 @@ func TestC10(t *testing.T) {
 				kind := gen.NonCollapsingKind().Draw(t, "targetkind")
 				cl.logf("ChangeMapping(%s, %s, %v)", spec2, kind, scale)
 				srcBefore := e.fullObs(e.s, e.k, e.cfg)
+				if os.Getenv("C10DEBUG") != "" {
+					e.s.ForEach(func(v, c float64) bool {
+						fmt.Printf("DEBUG src bin %v (index %d) weight %v\n", v, e.cfg.m.Index(v), c)
+						return false
+					})
+					fmt.Printf("DEBUG src mapping %s -> %s scale %v\n", e.cfg.spec, spec2, scale)
+				}
 				ne := e.s.ChangeMapping(m2, kind.Provider(), scale)
+				if os.Getenv("C10DEBUG") != "" {
+					ne.ForEach(func(v, c float64) bool { fmt.Printf("DEBUG res bin %v weight %v\n", v, c); return false })
+				}
 				np := p.s.ChangeMapping(m2, kind.Provider(), scale)
 				// source and result must be independent objects, whatever the scale: mutate the source, then the
 				// result must still report what it reported; the reverse direction is checked with a second conversion
@@ -330,6 +342,8 @@ func TestC10(t *testing.T) {
 						hi = lo + 1<<13
 					}
 					nd.lo, nd.hi = lo, hi
+					// (operations that reach beyond the window - spreads in merge arguments - stay within 1e-50..1e50 too)
+					nd.wideLo, nd.wideHi = max(m2.Index(1e-50), nd.minIdx), min(m2.Index(1e50), nd.maxIdx)
 					g.dom = nd
 					e.safeV, p.safeV = nd.clamp(m2.Value(lo)), nd.clamp(m2.Value(lo))
 					cl.label("op:changemapping")
